@@ -292,7 +292,13 @@ std::string do_let(World &w, const std::string &name, const std::string &f, cons
   // bookkeeping that does not depend on the library
   const std::vector<std::string> vts = var_tokens(a);
   std::vector<const VarRec *> recs;
-  for (const std::string &t : vts) { std::size_t ix; bool whole; recs.push_back(&lookup(w, t, &ix, &whole)); }
+  for (const std::string &t : vts) {
+    // undefined variables / bad element references are `bad-op` before anything is executed
+    std::size_t ix; bool whole;
+    const VarRec &r = lookup(w, t, &ix, &whole);
+    if ((whole && r.isvec) || (!whole && !r.isvec) || ix >= r.n.size()) throw BadOp();
+    recs.push_back(&r);
+  }
   const bool creator = recs.empty();
   int graph = creator ? w.curgraph : recs[0]->graph;
   int dev = creator ? w.curdev : recs[0]->dev;
